@@ -51,6 +51,7 @@ type Config struct {
 	Filter           string   `json:"filter,omitempty"` // all | none | first
 	DeliverFails     bool     `json:"deliver_fails,omitempty"`
 	ClockUnix        int64    `json:"clock_unix"`
+	ClockNanos       int      `json:"clock_nanos,omitempty"` // sub-second part of the instant, 0..999999999
 	ClockOffsetMin   int      `json:"clock_offset_min,omitempty"`
 	GetNilForMissing bool     `json:"get_nil_for_missing,omitempty"` // Get returns (nil, nil) for unknown ids
 }
@@ -81,20 +82,26 @@ type World struct {
 	Remote      map[string]RemoteSpec
 	Cfg         Config
 
-	Log        []Event
-	nextID     int
-	Issued     []string // ids handed out by NewID, in order
-	fallible   int
-	FailAt     map[int]bool // fallible call indices (1-based) made to fail
-	Sched      Scheduler
-	RealLock   bool
-	lockMu     sync.Mutex
-	lockCond   *sync.Cond
-	lockOwn    map[string]string
-	lockWait   map[string]string // request -> key it is blocked on (RealLock)
-	live       map[string]bool   // requests inside Do (RealLock)
-	RealPanics []string          // panics of finished requests (RealLock), under lockMu
-	Jitter     func()
+	Log      []Event
+	nextID   int
+	Issued   []string // ids handed out by NewID, in order
+	fallible int
+	FailAt   map[int]bool // fallible call indices (1-based) made to fail
+	// Unlock calls are counted apart from the other fallible calls (the
+	// library ignores their result everywhere, so only the checks whose
+	// quantifier names them enumerate them): the k-th Unlock releases the
+	// lock and then reports an injected error.
+	FailUnlockAt map[int]bool
+	unlocks      int
+	Sched        Scheduler
+	RealLock     bool
+	lockMu       sync.Mutex
+	lockCond     *sync.Cond
+	lockOwn      map[string]string
+	lockWait     map[string]string // request -> key it is blocked on (RealLock)
+	live         map[string]bool   // requests inside Do (RealLock)
+	RealPanics   []string          // panics of finished requests (RealLock), under lockMu
+	Jitter       func()
 
 	// pages served by GetInbox/GetOutbox of the protocols (C20)
 	InboxPage  interface{}
@@ -105,7 +112,7 @@ type World struct {
 func NewWorld(cfg Config) *World {
 	w := &World{LocalHosts: map[string]bool{}, Actors: map[string]*ActorSpec{}, byInbox: map[string]*ActorSpec{}, byOutbox: map[string]*ActorSpec{},
 		Store: map[string][]byte{}, Inboxes: map[string][]byte{}, Outboxes: map[string][]byte{}, StoredInbox: map[string]string{}, Remote: map[string]RemoteSpec{},
-		Cfg: cfg, FailAt: map[int]bool{}, lockOwn: map[string]string{}, lockWait: map[string]string{}, live: map[string]bool{}}
+		Cfg: cfg, FailAt: map[int]bool{}, FailUnlockAt: map[int]bool{}, lockOwn: map[string]string{}, lockWait: map[string]string{}, live: map[string]bool{}}
 	w.lockCond = sync.NewCond(&w.lockMu)
 	return w
 }
@@ -301,7 +308,15 @@ func (d DB) Lock(c context.Context, id *url.URL) error {
 
 func (d DB) Unlock(c context.Context, id *url.URL) error {
 	w := d.W
-	w.ev(c, "db.Unlock", false, IRI(id))
+	idx, _ := w.ev(c, "db.Unlock", false, IRI(id))
+	w.mu.Lock()
+	w.unlocks++
+	failUnlock := w.FailUnlockAt[w.unlocks]
+	if failUnlock {
+		w.Log[idx].Injected = true
+		w.Log[idx].Err = ErrInjected.Error()
+	}
+	w.mu.Unlock()
 	if w.Sched != nil {
 		w.Sched.Release(ReqOf(c), IRI(id))
 	} else if w.RealLock {
@@ -314,7 +329,17 @@ func (d DB) Unlock(c context.Context, id *url.URL) error {
 		w.lockMu.Unlock()
 	}
 	w.point(c, "db.Unlock.after "+IRI(id))
+	if failUnlock {
+		return ErrInjected
+	}
 	return nil
+}
+
+// UnlockCount returns how many Unlock calls were made so far.
+func (w *World) UnlockCount() int {
+	w.mu.Lock()
+	defer w.mu.Unlock()
+	return w.unlocks
 }
 
 // realEnter / realLeave bracket one request on real threads.
@@ -731,5 +756,5 @@ func (d DB) Liked(c context.Context, actorIRI *url.URL) (vocab.ActivityStreamsCo
 type Clock struct{ W *World }
 
 func (k Clock) Now() time.Time {
-	return time.Unix(k.W.Cfg.ClockUnix, 0).In(time.FixedZone("", k.W.Cfg.ClockOffsetMin*60))
+	return time.Unix(k.W.Cfg.ClockUnix, int64(k.W.Cfg.ClockNanos)).In(time.FixedZone("", k.W.Cfg.ClockOffsetMin*60))
 }
